@@ -20,16 +20,18 @@ theorem kblocks_ok : KBlocks K V :=
 theorem reachable_kfinv' (lt : K → K → Bool) (P : Params K) (tree : Tree K V) (progs : List (List (COp K V)))
     (hkp : KParams lt P) (ht : TreeOk none tree) (hord : OrdTree lt tree) (hsep : SepTree lt tree)
     (ho : tree.order = P.order) (hp : PadOk P) (hd : Disciplined progs)
+    (hdel : 4 ≤ tree.order ∨ NoDelete progs)
     (c : Config K V) (hr : Reachable (Config.init P tree progs) c) : KFInv lt c :=
-  reachable_kfinv kblocks_ok lt P tree progs hkp ht hord hsep ho hp hd c hr
+  reachable_kfinv kblocks_ok lt P tree progs hkp ht hord hsep ho hp hd hdel c hr
 
 /-- **linearizability, every schedule, with Delete** -/
 theorem linearizable_full' (lt : K → K → Bool) (P : Params K) (tree : Tree K V) (progs : List (List (COp K V)))
     (hkp : KParams lt P) (ht : TreeOk none tree) (hord : OrdTree lt tree) (hsep : SepTree lt tree)
     (ho : tree.order = P.order) (hp : PadOk P) (hd : Disciplined progs)
+    (hdel : 4 ≤ tree.order ∨ NoDelete progs)
     (c : Config K V) (hr : Reachable (Config.init P tree progs) c) :
     Lin.Linearizable lt tree.abs (history c) :=
-  linearizable_full kblocks_ok lt P tree progs hkp ht hord hsep ho hp hd c hr
+  linearizable_full kblocks_ok lt P tree progs hkp ht hord hsep ho hp hd hdel c hr
 
 end Gobptree.Conc
 
